@@ -50,4 +50,5 @@ def run(ctx, rep):
     rch = rep.rule("chain", "file -> lines (read().splitlines(), utf-8-sig) -> framing -> section route -> dispatcher -> builders: every link "
                             "hands the lines on unchanged", floor=10)
     from .chain import check_chain
-    check_chain(ctx, rch, "all", strict=False)
+    check_chain(ctx, rch, "all", strict=False, recognisers=("chartparse.instrument.NoteEvent.ParsedData",), only=("groups", "upper"))
+    # (a note's end is never before its start only if a written length cannot be negative: the N recogniser's length group is digits)
